@@ -1,10 +1,13 @@
 /-
   C18 — Tricks: debounced batches complete and ordered; stop ends all.
-  Theorems for the event debouncer (all producer/stopper scripts, all schedules, all clock advances).
-  The auto-restart and shell-command tricks are explored over a simulated process table by the
-  harness and judged by trace predicates (no theorem here: see evidence / DESIGN.md).
+  Theorems for the event debouncer (all producer/stopper scripts, all schedules, all clock advances)
+  and for the auto-restart trick (`WD.Rst`: all client scripts of start()/event/stop()/sleep, all
+  child lifetimes, kill delays, debounce intervals, all schedules, all clock advances).
+  The shell-command trick is explored over a simulated process table by the harness and judged by
+  trace predicates (no theorem here: see evidence / DESIGN.md).
 -/
 import WD.Proofs.Debouncer
+import WD.Proofs.Restart
 namespace WD.C18
 open WD.Deb WD.ProofsDeb
 
@@ -46,5 +49,58 @@ example :
       [.step 0, .step 0, .step 1, .step 1, .step 0, .step 1, .tick 2, .step 1, .step 1, .step 0, .tick 4, .step 0]
     s.hist.filterMap (fun o => match o with | .batch vs t => some (vs, t) | _ => none) = [([1, 2], 6)] := by
   decide +kernel
+
+/-! ### AutoRestartTrick (`WD.Rst`) -/
+section restart
+open WD.Rst
+variable (cfg : Cfg) (lifetimes : List (Option Nat)) (rscripts : List (List Rst.Op)) (ras : List Rst.Action)
+
+/-- never more than one child process alive at a time: in every reachable state (any scripts of start() / events /
+    stop() calls on any number of threads, any child lifetimes, any time a child takes to die of a signal, with or
+    without debouncer and restart-on-exit, any schedule, any advance of the clock) two live children are the same
+    child -/
+theorem one_child_at_a_time (p q : Nat)
+    (hp : (Rst.run (Rst.init cfg lifetimes rscripts) ras).aliveP p = true)
+    (hq : (Rst.run (Rst.init cfg lifetimes rscripts) ras).aliveP q = true) : p = q :=
+  ProofsRst.one_child cfg lifetimes rscripts ras p q hp hq
+
+/-- after the stop() that does the work has returned no child is alive (a stop() that finds the trick already
+    stopping returns at once and is logged as `stopNoop`: "the body of the function is only run once") -/
+theorem no_child_after_stop (tid t : Nat)
+    (h : Rst.Obs.stopRet tid t ∈ (Rst.run (Rst.init cfg lifetimes rscripts) ras).hist) (pid : Nat) :
+    (Rst.run (Rst.init cfg lifetimes rscripts) ras).aliveP pid = false :=
+  ProofsRst.no_child_after_stop cfg lifetimes rscripts ras tid t h pid
+
+/-- … and none is started later -/
+theorem no_spawn_after_stop (p q : List Rst.Obs) (tid t pid t' : Nat)
+    (h : (Rst.run (Rst.init cfg lifetimes rscripts) ras).hist = p ++ Rst.Obs.stopRet tid t :: q) :
+    Rst.Obs.spawn pid t' ∉ q :=
+  ProofsRst.no_spawn_after_stop cfg lifetimes rscripts ras p q tid t pid t' h
+
+/-- restarts are serialised: two threads inside the region guarded by `_restart_lock` are the same thread -/
+theorem restart_lock_exclusive (i j : Nat) (ti tj : Rst.Thread)
+    (hi : (Rst.run (Rst.init cfg lifetimes rscripts) ras).threads[i]? = some ti) (hhi : ProofsRst.holds ti.pc = true)
+    (hj : (Rst.run (Rst.init cfg lifetimes rscripts) ras).threads[j]? = some tj) (hhj : ProofsRst.holds tj.pc = true) :
+    i = j :=
+  ProofsRst.lock_exclusive cfg lifetimes rscripts ras i j ti tj hi hhi hj hhj
+
+/-- the kill loop always has a child to poll (`self.process.poll()` never meets `None`: the totalised branch of
+    `Rst.killLoop` is unreachable) -/
+theorem kill_loop_has_child (i : Nat) (ti : Rst.Thread)
+    (hi : (Rst.run (Rst.init cfg lifetimes rscripts) ras).threads[i]? = some ti) (hs : ProofsRst.isSleep ti.pc = true) :
+    (Rst.run (Rst.init cfg lifetimes rscripts) ras).process ≠ none :=
+  ProofsRst.sleeping_has_process cfg lifetimes rscripts ras i ti hi hs
+
+/-- non-vacuity: start, an event while the child runs (the child takes 300 ms to die of SIGINT), stop: two children
+    were spawned, the working stop() returned, nobody is alive -/
+example :
+    let s := Rst.run (Rst.init { interval := 0, killAfter := 1000, killDelay := 300, restartOnExit := true } [none, none]
+        [[.start, .event, .stop]])
+      [.step 0, .step 0, .step 0, .step 0, .step 0, .tick 250, .step 0, .tick 250, .step 0, .step 0,
+       .step 0, .step 0, .step 0, .tick 250, .step 0, .tick 250, .step 0, .step 1, .step 2, .step 0, .step 0]
+    s.procs.length = 2 ∧ s.aliveList = [] ∧ (s.hist.any fun o => match o with | .stopRet _ _ => true | _ => false) = true := by
+  decide +kernel
+
+end restart
 
 end WD.C18
